@@ -25,6 +25,7 @@ EXPLANATION = (
     "TimeoutAPIError holds on every path (must-dataflow). R4: a disjunctive exit analysis (flag idiom tracked) shows that "
     "every exit of the connect/notify operations other than success has called the remover and the success exit returns it. "
     "Concurrency isolation as observable behaviour over all interleavings is not decided."
+    ' Also: the Bluetooth message callbacks contain no expression that can raise by itself; operations are not serialised behind a lock.'
 )
 ASSUMPTIONS = ["C11 (the request machinery releases its own handler and waiter)", "cancellation (BaseException) is outside the property's quantifier"]
 
